@@ -1659,6 +1659,8 @@ class Executor:
             return [(st, V('pyconst', py=self.mk_exc(f.py, node, args=tuple(args))))]
         if f.kind != 'func':
             summ = self.ctx.callees.get(f.path) if f.path else None
+            if summ is None and f.path:
+                summ = self.ctx.callees.get('*.' + f.path.split('.')[-1])
             if summ is not None:
                 return summ.apply(self, st, None, args, kwargs, node)
             hooks = self.ctx.hooks
